@@ -25,6 +25,7 @@ python3 translate/rs2lean_select.py /repo lean/RSVerif/Gen/SrcSelect.lean || tru
 python3 translate/rs2lean_utils.py /repo lean/RSVerif/Gen/SrcUtils.lean || true
 python3 translate/rs2lean_mul.py /repo lean/RSVerif/Gen/SrcMul.lean || true
 python3 translate/rs2lean_bytes.py /repo lean/RSVerif/Gen/SrcBytes.lean || true
+python3 translate/rs2lean_wiring.py /repo lean/RSVerif/Gen/SrcWiring.lean || true
 mods=""
 for f in lean/RSVerif/Properties/C*.lean; do
   m=$(basename "$f" .lean)
